@@ -940,25 +940,36 @@ func (s *Subscription) loadAccess(cb func(*rescache.Access), t *rescache.Throttl
 
 	if t != nil {
 		t.Add(func() {
-			s.c.Access(s, func(access *rescache.Access) {
-				s.c.Enqueue(func() {
-					if s.state == stateDisposed {
-						return
-					}
+			// The throttle may call back later and from another goroutine.
+			// The request is sent from the connection's own goroutine, and
+			// not at all if the subscription has been disposed meanwhile.
+			if !s.c.Enqueue(func() {
+				if s.state == stateDisposed {
+					t.Done()
+					return
+				}
+				s.c.Access(s, func(access *rescache.Access) {
+					s.c.Enqueue(func() {
+						if s.state == stateDisposed {
+							return
+						}
 
-					cbs, store := s.takeAccessCallbacks()
-					// Only store in case of an actual result or system.accessDenied error
-					if store && (access.Error == nil || access.Error.Code == reserr.CodeAccessDenied) {
-						s.access = access
-						verifNote("accStore", "cid", s.c.CID(), "rid", s.rid, "sp", s)
-					}
+						cbs, store := s.takeAccessCallbacks()
+						// Only store in case of an actual result or system.accessDenied error
+						if store && (access.Error == nil || access.Error.Code == reserr.CodeAccessDenied) {
+							s.access = access
+							verifNote("accStore", "cid", s.c.CID(), "rid", s.rid, "sp", s)
+						}
 
-					for _, cb := range cbs {
-						cb(access)
-					}
+						for _, cb := range cbs {
+							cb(access)
+						}
+					})
+					t.Done()
 				})
+			}) {
 				t.Done()
-			})
+			}
 		})
 	} else {
 		s.c.Access(s, func(access *rescache.Access) {
